@@ -8,9 +8,13 @@
    T <v> <n> <sym>*n <term>              -> <hex print_term> <wire form of term_sexp>
    X <hextext>                           -> <read std> <read osmt>            (the text read as one symbol)
    Y <v> <n> <sym>*n <i>                 -> <hex symToString of symbol i>
-   D <v> <b|d> <uniqueNum> <sym>         -> <hex def_header_fun of the builder / default definition> <next uniqueNum>
+   D <v> <b|d> <uniqueNum> <nt> <sym>*nt <i>
+                                         the definition of symbol i of the table (the symbols of the logic)
+                                         -> NONE | <hex def_header_fun of the builder / default definition> <next uniqueNum>
+                                            <np> (<hexname> <sort>)*np          (the variables created, to extend the table)
    K <v> <sym>                           -> <hex def_header_const>
-   R <v> <nu> <sym>*nu <nf> (<b|d> <uniq> <idx>)*nf   (idx: index into the user list)
+   R <v> <nu> <sym>*nu <nf> (<b|d> <uniq> <idx>)*nf   (idx: index into the user list; the definitions are created
+                                         in this order, each extending the table of the next)
                                          -> NONE | <hex header>*nf
    G <v> <n> (<hexname> <hexvalue>)*n    -> OK <hex> | UB <hex>
    C <v> <n> <hexname>*n                 -> <hex core_names_text>
@@ -103,6 +107,9 @@ let rec sexp_wire = function
   | SAtom t -> tok_wire t
   | SList l -> "( " ^ String.concat " " (List.map sexp_wire l) ^ (if l = [] then ")" else " )")
 
+let rec sort_wire = function Sort (n, args) ->
+  String.concat " " ((hx n ^ "/" ^ string_of_int (List.length args)) :: List.map sort_wire args)
+
 let rd = function None -> "N" | Some s -> "S" ^ hx s
 
 let handle line =
@@ -129,18 +136,34 @@ let handle line =
   | "Y" -> let v = variant (next toks) in let n = int_of_string (next toks) in
     let env = rd_list toks n rd_sym in let i = int_of_string (next toks) in hx (symToString v env (List.nth env i))
   | "D" -> let v = variant (next toks) in let kind = next toks in let u = int_of_string (next toks) in
-    let d = rd_sym toks in
-    if kind = "b" then let (df, u') = builder_definition v d (nat_of_int u) in
-      Printf.sprintf "%s %d" (hx (def_header_fun v df)) (int_of_nat u')
-    else Printf.sprintf "%s %d" (hx (def_header_fun v (default_definition v d))) u
+    let nt = int_of_string (next toks) in
+    let tbl = rd_list toks nt rd_sym in
+    let d = List.nth tbl (int_of_string (next toks)) in
+    let params df = String.concat " " (List.map (fun (n, s) -> hx n ^ " " ^ sort_wire s) df.df_params) in
+    if kind = "b" then
+      (match builder_definition v tbl d (nat_of_int u) with
+       | None -> "NONE"
+       | Some ((df, u'), _) -> Printf.sprintf "%s %d %d %s" (hx (def_header_fun v df)) (int_of_nat u') (List.length df.df_params) (params df))
+    else
+      (match default_definition v tbl d with
+       | None -> "NONE"
+       | Some (df, _) -> Printf.sprintf "%s %d %d %s" (hx (def_header_fun v df)) u (List.length df.df_params) (params df))
   | "K" -> let v = variant (next toks) in hx (def_header_const v (rd_sym toks))
   | "R" -> let v = variant (next toks) in let nu = int_of_string (next toks) in
     let user = rd_list toks nu rd_sym in
     let nf = int_of_string (next toks) in
+    let tbl = ref user in
     let fs = rd_list toks nf (fun toks ->
         let kind = next toks in let u = int_of_string (next toks) in let i = int_of_string (next toks) in
         let d = List.nth user i in
-        (d, if kind = "b" then Stdlib.fst (builder_definition v d (nat_of_int u)) else default_definition v d)) in
+        if kind = "b" then
+          (match builder_definition v !tbl d (nat_of_int u) with
+           | Some ((df, _), t') -> tbl := t'; (d, df)
+           | None -> failwith "creation")
+        else
+          (match default_definition v !tbl d with
+           | Some (df, t') -> tbl := t'; (d, df)
+           | None -> failwith "creation")) in
     (match resolve_clashes v user fs with
      | None -> "NONE"
      | Some l -> String.concat " " (List.map (fun df -> hx (def_header_fun v df)) l))
